@@ -323,6 +323,20 @@ func (c *Client) sendRecv(tm message, rm message) error {
 	err := send(c.log, c.conn, tag(t), tm)
 	c.sendMu.Unlock()
 	if err != nil {
+		// Nobody is going to answer a request that was not sent. Unregister
+		// it, and drop an error a concurrent receiver may already have
+		// delivered: resp goes back to the pool now, and whoever gets it
+		// next, on this or any other Client, must not find a stale result
+		// in it or be handed a reply decoded for this request.
+		c.pendingMu.Lock()
+		if c.pending[tag(t)] == resp {
+			delete(c.pending, tag(t))
+		}
+		c.pendingMu.Unlock()
+		select {
+		case <-resp.done:
+		default:
+		}
 		return fmt.Errorf("send: %w", err)
 	}
 
